@@ -116,4 +116,12 @@ CHECKS = {
         note="Bounded: depth 4 (5 thorough), one target, <= 3 tasks, universe {default, db1, db2} x {a, b, c}. The replication entity is the light one (recording channel manager); connectivity probe skipped through the verif hook.",
         parts=[part("tasks", "server", ".", "TestVerifC10Tasks", shards=(16, 16), budget=(150, 1200))],
     ),
+    "C19": dict(
+        level="model_checking", engine="seq",
+        technique="total enumeration of request bodies over a JSON-structural alphabet up to a length bound plus all single-subtree mutations of valid requests, and adversarial creates after every accepted prefix with snapshot comparison",
+        text="The real /cdc handler (getCDCHandler + handle_map + MetaCDC) is driven through httptest with every body up to the length bound over a JSON-structural alphabet and every single-subtree mutation of each valid request type; every answer must be one JSON object with a legal code and no handler may panic. Structurally valid creates with adversarial values are sent on the empty server and after every accepted prefix; a rejected request must leave tasks, checkpoints, bookkeeping and the store dump unchanged, an accepted one must not poison later requests.",
+        note="Honest limit: 'all byte strings' is covered to 4 bytes (5 thorough) over an 11-symbol alphabet plus structured mutations; prefixes of depth <= 2. Connectivity probe skipped through the verif hook, light replication entity.",
+        parts=[part("total", "server", ".", "TestVerifC19Total", shards=(8, 16), budget=(150, 900)),
+               part("rejects", "server", ".", "TestVerifC19Rejects", shards=(4, 8), budget=(150, 600))],
+    ),
 }
